@@ -364,11 +364,26 @@ func checkC17(c *Ctx) *report.Result {
 	// the corruption step: the OAM method the CPU machine-cycle step calls
 	var corruptStep *ssa.Function
 	if exec := c.P.Func("gameboy/cpu", "(*CPU).ExecuteMachineCycle"); exec != nil {
-		for _, sc := range callsIn(exec.Blocks) {
-			if sc.Callee != nil && recvTypeKey(sc.Callee) == "oam.OAM" {
-				corruptStep = sc.Callee
+		// the OAM routine the CPU step calls, directly or through helpers of the CPU
+		seen := map[*ssa.Function]bool{}
+		var find func(f *ssa.Function, depth int)
+		find = func(f *ssa.Function, depth int) {
+			if f == nil || seen[f] || depth > 2 {
+				return
+			}
+			seen[f] = true
+			for _, sc := range callsIn(f.Blocks) {
+				if sc.Callee == nil {
+					continue
+				}
+				if recvTypeKey(sc.Callee) == "oam.OAM" {
+					corruptStep = sc.Callee
+				} else if recvTypeKey(sc.Callee) == recvTypeKey(exec) {
+					find(sc.Callee, depth+1)
+				}
 			}
 		}
+		find(exec, 0)
 	}
 	if corruptStep == nil || len(arm) == 0 {
 		r.Fail("unresolved", "O-arm", "corruption step / arming flags", "", "the CPU step calls no OAM routine, or the OAM object has no arming flags")
@@ -553,6 +568,9 @@ func checkC17(c *Ctx) *report.Result {
 				}
 			}
 			n++
+			if post == nil {
+				left = append(left, "(no post-state: the entry does not return)")
+			}
 			r.Ob("O-consume", len(left) == 0, "entry "+e.Name+" leaves every arming flag clear", firstPos(c, e.Fn), fmt.Sprintf("flags that may be set afterwards: %v; a pending corruption is applied in a later cycle, when the LCD may be off or the PPU outside mode 2", left))
 		}
 		if exec == nil || n == 0 {
@@ -563,7 +581,7 @@ func checkC17(c *Ctx) *report.Result {
 			for _, b := range exec.Blocks {
 				for _, ins := range b.Instrs {
 					if call, ok := ins.(*ssa.Call); ok {
-						if call.Call.StaticCallee() == corruptStep {
+						if sc := call.Call.StaticCallee(); sc != nil && mustCall(sc, corruptStep, 2) {
 							corrCall = ins
 						} else if _, isFn := call.Call.Value.(*ssa.Function); !isFn && !call.Call.IsInvoke() {
 							if _, bi := call.Call.Value.(*ssa.Builtin); !bi {
@@ -712,4 +730,43 @@ func checkC17(c *Ctx) *report.Result {
 		r.Sample(map[string]interface{}{"rule": "O-writers", "direct_writers": sortedKeys(allowed), "corruption_routines": sortedKeys(viaCorrupt)})
 	}
 	return r
+}
+
+// mustCall reports whether every execution of f that returns has called target (directly, or through a
+// callee that must call it): some block holding such a call dominates every return.
+func mustCall(f, target *ssa.Function, depth int) bool {
+	if f == target {
+		return true
+	}
+	if f == nil || depth < 0 || len(f.Blocks) == 0 {
+		return false
+	}
+	var holders []*ssa.BasicBlock
+	for _, b := range f.Blocks {
+		for _, ins := range b.Instrs {
+			if call, ok := ins.(*ssa.Call); ok {
+				if g := call.Call.StaticCallee(); g != nil && g != f && mustCall(g, target, depth-1) {
+					holders = append(holders, b)
+				}
+			}
+		}
+	}
+	if len(holders) == 0 {
+		return false
+	}
+	for _, b := range f.Blocks {
+		if _, isRet := b.Instrs[len(b.Instrs)-1].(*ssa.Return); !isRet {
+			continue
+		}
+		dominated := false
+		for _, h := range holders {
+			if h.Dominates(b) {
+				dominated = true
+			}
+		}
+		if !dominated {
+			return false
+		}
+	}
+	return true
 }
